@@ -362,4 +362,39 @@ theorem condLit_sound {F : FloatOps} {c2 c3 : Expr} (h : condLit F c2 = some c3)
     exact evalEq_cond (EvalEq.refl F _) (EvalEq.refl F _) (EvalEq.refl F _)
   · cases h
 
+/-- the optimizer's IfStmt rewrite: a literal condition replaced by the BoolLit `!falsy` -/
+theorem if_lit_rewrite (F : FloatOps) {c : Expr} {falsy : Bool}
+    (h : Gen.isLiteralFalsy F (litOf c) = .ok (some falsy)) (p bp : Pos) (init : Option Stmt) (body : List Stmt)
+    (els : Option Stmt) (fuel : Nat) (env : Env) :
+    execStmt F fuel env (.if_ p init c bp body els) =
+      execStmt F fuel env (.if_ p init (.bool c.pos (!falsy)) bp body els) := by
+  obtain ⟨hne, hf⟩ := isLiteralFalsy_vm h
+  have hl := litVal_of_litOf F hne
+  cases fuel with
+  | zero => rw [Sem.execStmt.eq_1, Sem.execStmt.eq_1]
+  | succ f =>
+    rw [Sem.execStmt.eq_def, Sem.execStmt.eq_def]
+    simp only []
+    cases f with
+    | zero => simp only [eval_zero]
+    | succ g =>
+      simp only [hl.2, eval_bool, pure_bind, hf]
+      have : isFalsy (V.bool (!falsy)) = pure falsy := by cases falsy <;> rfl
+      simp only [this]
+
+/-- `if <BoolLit> { body } else …` (no init statement) is the taken branch -/
+theorem if_bool_taken (F : FloatOps) (p q bp : Pos) (b : Bool) (body : List Stmt) (els : Option Stmt)
+    (f : Nat) (env : Env) :
+    execStmt F (f+2) env (.if_ p none (.bool q b) bp body els) =
+      (if b then do
+          let (c, _) ← execBlock F (f+1) ([] :: env) body
+          pure (c, env)
+        else
+          match els with
+          | some e => do let (c, _) ← execStmt F (f+1) ([] :: env) e; pure (c, env)
+          | none => pure (.normal, env)) := by
+  rw [Sem.execStmt.eq_def]
+  simp only [eval_bool, pure_bind]
+  cases b <;> rfl
+
 end UgoVerif.Proofs.OptimSem
